@@ -59,13 +59,46 @@ theorem psAdd_wf (K1 K2 dl dc : Nat) (q : Bool) :
 
 /-! ### resampling -/
 
-/-- `Resampling::resample` into a set shaped like the input, with one parent slot per particle -/
-theorem resample_safe (I : Layout) (N : Nat) (hN : 1 ≤ N) : (resample I N I N N).Safe := by
-  simp [resample, gmMean, gmCov, Layout.meanS, Layout.covS]
-  refine ⟨by omega, ?_⟩
-  intro j hj
-  have b1 := mul_block_le I.dcov j N hj
-  have b2 := mul_block_le I.dcov (N - 1) N (by omega)
+/-- the clamped scan never leaves the particle set, whatever the comparisons say -/
+theorem cswScan_ok (N : Nat) (gt : Nat → Bool) (hN : 1 ≤ N) (fuel : Nat) : ∀ idx, idx ≤ N - 1 →
+    (cswScan true N gt fuel idx).Safe ∧ (cswScan true N gt fuel idx).val ≤ N - 1 := by
+  induction fuel with
+  | zero => intro idx h; simp [cswScan]; exact h
+  | succ f ih =>
+    intro idx h
+    simp only [cswScan, safe_bind, val_bind, coeff, safe_mk_cons, safe_mk_nil, Cond.holds, and_true]
+    refine ⟨⟨by omega, ?_⟩, ?_⟩
+    · split
+      · rename_i hc
+        have : idx < N - 1 := by simp at hc; exact hc.2
+        exact (ih (idx + 1) (by omega)).1
+      · simp
+    · split
+      · rename_i hc
+        have : idx < N - 1 := by simp at hc; exact hc.2
+        exact (ih (idx + 1) (by omega)).2
+      · simpa using h
+
+theorem resampleLoop_safe (I : Layout) (N : Nat) (gt : Nat → Nat → Bool) (hN : 1 ≤ N) (rem : Nat) :
+    ∀ j idx, j + rem = N → idx ≤ N - 1 → (resampleLoop true I N I N N gt rem j idx).Safe := by
+  induction rem with
+  | zero => intro j idx _ _; simp [resampleLoop]
+  | succ r ih =>
+    intro j idx hj hidx
+    obtain ⟨s1, s2⟩ := cswScan_ok N (gt j) hN (N + 1) idx hidx
+    have b1 := mul_block_le I.dcov j N (by omega)
+    have b2 := mul_block_le I.dcov (cswScan true N (gt j) (N + 1) idx).val N (by omega)
+    simp only [resampleLoop, safe_bind, val_bind, s1, true_and]
+    refine ⟨?_, ?_, ?_, ?_, ?_, ?_, ?_, ?_, ?_, ?_, ?_, ih (j + 1) _ (by omega) s2⟩ <;>
+      simp [gmMean, gmCov, Layout.meanS, Layout.covS] <;> omega
+
+/-- `Resampling::resample` into a set shaped like the input, with one parent slot per particle — for ANY weight
+    vector (the comparisons `u_j > csw(idx)` are arbitrary): the clamp `idx_csw < N - 1` keeps every read inside. -/
+theorem resample_safe (I : Layout) (N : Nat) (gt : Nat → Nat → Bool) (hN : 1 ≤ N) : (resample I N I N N gt).Safe := by
+  unfold resample resampleGen
+  simp only [safe_bind, safe_forRange, coeff, safe_mk_cons, safe_mk_nil, Cond.holds, and_true]
+  refine ⟨by omega, by omega, ?_, resampleLoop_safe I N gt hN N 0 0 (by omega) (by omega)⟩
+  intro i hi
   omega
 
 theorem gridInit_safe (nx ny N rows : Nat) : (gridInit nx ny N rows).Safe := by
@@ -88,10 +121,10 @@ theorem prior_count_lt (N rnum rden : Nat) (hN : 1 ≤ N) (hr : rnum < rden) : N
 
 /-- `ResamplingWithPrior::resample`: at least one particle, prior ratio in [0, 1), any layout (quaternions included
     after fix afe0735), any initialisation grid (refusals are ignored), one parent slot per particle. -/
-theorem resampleWithPrior_safe (I : Layout) (N rnum rden nx ny : Nat) (hN : 1 ≤ N) (hr : rnum < rden) :
-    (resampleWithPrior I N rnum rden nx ny N).Safe := by
+theorem resampleWithPrior_safe (I : Layout) (N rnum rden nx ny : Nat) (gt : Nat → Nat → Bool) (hN : 1 ≤ N) (hr : rnum < rden) :
+    (resampleWithPrior I N rnum rden nx ny N gt).Safe := by
   have hp := prior_count_lt N rnum rden hN hr
-  have hrs := resample_safe I (N - N * rnum / rden) (by omega)
+  have hrs := resample_safe I (N - N * rnum / rden) gt (by omega)
   have hg := gridInit_safe nx ny (N * rnum / rden) I.dim
   have ha := psAdd_safe (N * rnum / rden) (N - N * rnum / rden) I.dl I.dc I.quat
   unfold resampleWithPrior
